@@ -125,8 +125,12 @@ func runTAB11(p *Prog, r *RuleRun) {
 		return
 	}
 	sort.Slice(fns, func(i, j int) bool { return fns[i].String() < fns[j].String() })
+	delegates := map[*ssa.Function]bool{}
 	for _, fn := range fns {
-		tab11Func(p, r, fn, hdrLen)
+		delegates[fn] = true
+	}
+	for _, fn := range fns {
+		tab11Func(p, r, fn, hdrLen, delegates)
 	}
 }
 
@@ -142,6 +146,7 @@ type tab11Path struct {
 	file   map[ssa.Value]linForm   // backing array -> file position of element 0
 	alias  map[ssa.Value]ssa.Value // phi -> incoming value on this path
 	conf   []string                // conflicts found on this path
+	cells  map[ssa.Value]ssa.Value // local variable (Alloc) -> the value it currently holds
 	heapID map[string]ssa.Value    // heap cell -> the slice value it currently holds (identity for len())
 	lenRep map[ssa.Value]ssa.Value // slice identity -> the first len() call seen for it
 	vis    map[*ssa.BasicBlock]int
@@ -149,6 +154,10 @@ type tab11Path struct {
 
 func (t *tab11Path) clone() *tab11Path {
 	n := &tab11Path{env: map[ssa.Value]absSlice{}, heap: map[string]absSlice{}, file: map[ssa.Value]linForm{}, alias: map[ssa.Value]ssa.Value{}, vis: map[*ssa.BasicBlock]int{}, heapID: map[string]ssa.Value{}, lenRep: map[ssa.Value]ssa.Value{}}
+	n.cells = map[ssa.Value]ssa.Value{}
+	for k, v := range t.cells {
+		n.cells[k] = v
+	}
 	for k, v := range t.heapID {
 		n.heapID[k] = v
 	}
@@ -174,7 +183,7 @@ func (t *tab11Path) clone() *tab11Path {
 	return n
 }
 
-func tab11Func(p *Prog, r *RuleRun, fn *ssa.Function, hdrLen int64) {
+func tab11Func(p *Prog, r *RuleRun, fn *ssa.Function, hdrLen int64, delegates map[*ssa.Function]bool) {
 	// the offset parameter: the integer parameter a ReadAt position derives from
 	var offPrm *ssa.Parameter
 	var lin func(t *tab11Path, v ssa.Value, depth int) linForm
@@ -264,15 +273,26 @@ func tab11Func(p *Prog, r *RuleRun, fn *ssa.Function, hdrLen int64) {
 		return
 	}
 	want := linForm{c: hdrLen, syms: map[ssa.Value]int64{offPrm: 1}}
-	objKey := func(t *tab11Path, v ssa.Value) string {
-		for i := 0; i < 8; i++ {
+	resolveVal := func(t *tab11Path, v ssa.Value) ssa.Value {
+		for i := 0; i < 12; i++ {
 			if a, ok := t.alias[v]; ok {
 				v = a
 				continue
 			}
+			if u, ok := v.(*ssa.UnOp); ok && u.Op == token.MUL {
+				if al, ok := u.X.(*ssa.Alloc); ok {
+					if cur, ok := t.cells[al]; ok {
+						v = cur
+						continue
+					}
+				}
+			}
 			break
 		}
-		return fmt.Sprintf("%p", v)
+		return v
+	}
+	objKey := func(t *tab11Path, v ssa.Value) string {
+		return fmt.Sprintf("%p", resolveVal(t, v))
 	}
 	var sliceOf func(t *tab11Path, v ssa.Value, depth int) absSlice
 	sliceOf = func(t *tab11Path, v ssa.Value, depth int) absSlice {
@@ -368,6 +388,9 @@ func tab11Func(p *Prog, r *RuleRun, fn *ssa.Function, hdrLen int64) {
 		for _, ins := range b.Instrs {
 			switch x := ins.(type) {
 			case *ssa.Store:
+				if al, ok := x.Addr.(*ssa.Alloc); ok {
+					t.cells[al] = resolveVal(t, x.Val)
+				}
 				if fa, ok := x.Addr.(*ssa.FieldAddr); ok && isBytes(x.Val) {
 					if s := sliceOf(t, x.Val, 0); s.ok {
 						t.heap[objKey(t, fa.X)+"."+fmt.Sprint(fa.Field)] = s
@@ -413,16 +436,18 @@ func tab11Func(p *Prog, r *RuleRun, fn *ssa.Function, hdrLen int64) {
 					if !ok || !isNamed(pt.Elem(), ModPath+"/types", "PooledBuffer") {
 						continue
 					}
-					v := rv
-					for i := 0; i < 8; i++ {
-						if a, ok := t.alias[v]; ok {
-							v = a
-							continue
-						}
-						break
-					}
+					v := resolveVal(t, rv)
 					if c, ok := v.(*ssa.Const); ok && c.IsNil() {
 						continue
+					}
+					// a buffer obtained from another frame-reading function of the package is that function's
+					// obligation (it is analysed as a root of its own)
+					if ex, ok := v.(*ssa.Extract); ok {
+						if cc, ok := ex.Tuple.(*ssa.Call); ok && delegates[cc.Call.StaticCallee()] {
+							nReturns++
+							r.Trivial(fmt.Sprintf("%s:return@%s", funcDisplay(fn), describeRet(fn, x)), posOf(p, x), "hands on the buffer of "+funcDisplay(cc.Call.StaticCallee()))
+							continue
+						}
 					}
 					nReturns++
 					key := fmt.Sprintf("%s:return@%s", funcDisplay(fn), describeRet(fn, x))
@@ -458,7 +483,7 @@ func tab11Func(p *Prog, r *RuleRun, fn *ssa.Function, hdrLen int64) {
 			}
 		}
 	}
-	walk(&tab11Path{env: map[ssa.Value]absSlice{}, heap: map[string]absSlice{}, file: map[ssa.Value]linForm{}, alias: map[ssa.Value]ssa.Value{}, vis: map[*ssa.BasicBlock]int{}, heapID: map[string]ssa.Value{}, lenRep: map[ssa.Value]ssa.Value{}}, fn.Blocks[0], nil)
+	walk(&tab11Path{env: map[ssa.Value]absSlice{}, heap: map[string]absSlice{}, file: map[ssa.Value]linForm{}, alias: map[ssa.Value]ssa.Value{}, vis: map[*ssa.BasicBlock]int{}, heapID: map[string]ssa.Value{}, lenRep: map[ssa.Value]ssa.Value{}, cells: map[ssa.Value]ssa.Value{}}, fn.Blocks[0], nil)
 	if nReturns == 0 {
 		r.Unknown(funcDisplay(fn)+":returns", p.Position(fn.Pos()), "no return hands out a buffer")
 	}
